@@ -3,6 +3,7 @@ module verif
 go 1.23
 
 require (
+	github.com/mattn/go-sqlite3 v1.14.22
 	github.com/quagmt/udecimal v1.8.0
 	github.com/quickfixgo/quickfix v0.0.0
 	github.com/shopspring/decimal v1.4.0
